@@ -206,11 +206,35 @@ def _d2_by_algebra(eng, ctx, mb, T, sat_field, sig_field, cell_field, consumer_f
     except (Unsupported, Mismatch):
         return None
 
+    vac_ctx = {"gens": (), "conds": ()}
+
+    def vacuous_alt(g, c):
+        """an alternative of a gated mask taken only when the scan has nothing to visit: its condition says that the number of positions the other
+        conditions leave is zero - `mask = getattr(self, MASK) if ncells else 0`"""
+        try:
+            size = sa.cnt(tuple(vac_ctx["gens"]), tuple(x for x in vac_ctx["conds"] if x is not c))
+        except Exception:  # noqa: BLE001
+            return False
+        ps = sa.poly(size) if size is not None else None
+        if ps is None:
+            return False
+        for c_, pol_ in g:
+            if not pol_ and sa.poly(c_) == ps:
+                return True
+            if not pol_ and c_[0] == "cmp" and c_[1] in ("!=", ">") and c_[3] == ("const", 0) and sa.poly(c_[2]) == ps:
+                return True
+        return False
+
     def bit_of(c):
         bt = _bit_test_general(c)
         if bt is None or bt[0] == "const":
             return None
-        fld = _mask_field(bt[0])
+        x = bt[0]
+        if x[0] == "ite":
+            live = [lf for g, lf in leaves(x) if not vacuous_alt(g, c)]
+            if len(live) == 1:
+                x = live[0]
+        fld = _mask_field(x)
         return (fld, bt[1]) if fld else None
 
     def substituted_mask(conds):
@@ -220,6 +244,24 @@ def _d2_by_algebra(eng, ctx, mb, T, sat_field, sig_field, cell_field, consumer_f
             if bt is None or bt[0] == "const" or bt[0][0] != "ite":
                 continue
             alts = leaves(bt[0])
+
+            def vacuous(g):
+                # the alternative is taken only when the scan has nothing to visit: its condition says that the number of positions (the product
+                # of the generator sizes) is zero - `mask = getattr(self, MASK) if ncells else 0`
+                try:
+                    size = sa.cnt(tuple(gens_of[0]), tuple(x for x in conds if x is not c))  # positions the other conditions leave
+                except Exception:  # noqa: BLE001
+                    size = None
+                ps = sa.poly(size) if size is not None else None
+                for c_, pol_ in g:
+                    pc_ = sa.poly(c_) if not pol_ else None
+                    if pc_ is not None and ps is not None and pc_ == ps:
+                        return True
+                    if not pol_ and c_[0] == "cmp" and c_[1] in ("!=", ">") and c_[3] == ("const", 0) and ps is not None and sa.poly(c_[2]) == ps:
+                        return True
+                return False
+
+            alts = [(g, lf) for g, lf in alts if not vacuous(g)]
             flds = {_mask_field(lf) for _, lf in alts}
             if any(f_ is not None for f_ in flds) and None in flds:
                 g_, lf_ = next((g, lf) for g, lf in alts if _mask_field(lf) is None)
@@ -238,7 +280,10 @@ def _d2_by_algebra(eng, ctx, mb, T, sat_field, sig_field, cell_field, consumer_f
         return [st for st in sub2(t) if isinstance(st, tuple) and st and st[0] == "call" and len(st) == 5 and st[2][0] == "attr" and st[2][2] == "get" and len(st[3]) >= 1]
 
     # ---- satellite map
+    gens_of = [()]
     for nf_ in (nsat, ncell):
+        gens_of[0] = nf_.gens
+        vac_ctx["gens"], vac_ctx["conds"] = nf_.gens, nf_.conds
         sm = substituted_mask(nf_.conds)
         if sm is not None:
             ctx.bad("C09.D2", mb.qualname, "mask bit test", expected="every recorded label is decided by the bit of the mask field itself", found=f"under {guard_text(sm[2])[:60]} the test reads `{show(sm[1])[:50]}` instead of the mask", **loc)
@@ -249,6 +294,7 @@ def _d2_by_algebra(eng, ctx, mb, T, sat_field, sig_field, cell_field, consumer_f
             return {"decided": True, "recvs": {}, "labels": [], "gets": []}
     if len(nsat.gens) != 1 or len(nsat.conds) != 1:
         return None
+    vac_ctx["gens"], vac_ctx["conds"] = nsat.gens, nsat.conds
     bs = bit_of(nsat.conds[0])
     if bs is None and nsat.conds[0][0] == "not" and bit_of(nsat.conds[0][1]) is not None:
         ctx.bad("C09.D2", mb.qualname, f"scan of {sat_field}", expected="labels are recorded for the SET bits of the mask", found="the map is filled under the negated bit test", **loc)
@@ -294,6 +340,7 @@ def _d2_by_algebra(eng, ctx, mb, T, sat_field, sig_field, cell_field, consumer_f
         return None
     gA, gB = ncell.gens
     # which mask does each factor of the cell map test?  (outer factor: satellites, inner: signals, the joint condition: cells)
+    vac_ctx["gens"], vac_ctx["conds"] = ncell.gens, ncell.conds
     if len(ncell.conds) == 3 and all(bit_of(c) for c in ncell.conds):
         onlyA = [c for c in ncell.conds if mentions(c, lambda s_: s_ == gA[0]) and not mentions(c, lambda s_: s_ == gB[0]) and not mentions(c, lambda s_: s_[0] == "pc")]
         onlyB = [c for c in ncell.conds if mentions(c, lambda s_: s_ == gB[0]) and not mentions(c, lambda s_: s_ == gA[0]) and not mentions(c, lambda s_: s_[0] == "pc")]
@@ -724,7 +771,7 @@ def run(eng, ctx, layout_only=False):
                             # the field the consumer reads is the one the map builder fills: the scan's container itself, or a field the container object is stored in
                             fname = base[1][1]
                             mm = model.get(sat_field if typ == tc["PRN"] else cell_field)
-                            if mm is not None and mm.get("cont") is not None:
+                            if mm is not None and mm.get("cont") is not None and not decided_by_algebra:  # (the algebra has looked at what the consumer's field holds)
                                 direct = mm["cont"] == "self." + fname
                                 pre_c = (loops.get(scans[sat_field if typ == tc["PRN"] else cell_field]["loop"][0], {}).get("pre") or {}).get(mm["cont"])
                                 stored = [x for x in se.effects if x.kind == "store" and x.target == ("self", fname) and not x.loops and (x.term == pre_c or (x.term[0] in ("loop", "loopout") and x.term[2] == mm["cont"]))]
@@ -800,7 +847,8 @@ def run(eng, ctx, layout_only=False):
     label_sources = [(e, e.term[3][0]) for e in se.effects if e.kind == "call" and e.term[2][0] == "attr" and e.term[2][2] == "append" and e.loops and sig_field in scans and e.loops == scans[sig_field]["loop"]]
     if sig_field in model and model[sig_field].get("comp_elt") is not None:
         label_sources.append((scans[sig_field]["effects"][0], model[sig_field]["comp_elt"]))
-    if not label_sources and alg and alg.get("labels"):
+    if alg and alg.get("labels"):
+        # when the maps have a normal form the label expression is read off it (whatever intermediate lists and columns the code goes through)
         anchor = type("E", (), {"node": mb.node})()
         label_sources = [(anchor, t) for t in alg["labels"]]
     ctx.instance("signal label sources", len(label_sources), 1)
@@ -808,7 +856,7 @@ def run(eng, ctx, layout_only=False):
         if True:
             alts = leaves(src_t)
             for g, leaf in alts:
-                pos = leaf[2][1] if leaf[0] == "idx" and is_const(leaf[2]) else None
+                pos = leaf[2][1] if leaf[0] == "idx" and is_const(leaf[2]) else (leaf[2] if leaf[0] == "proj" and isinstance(leaf[2], int) else None)  # x[k], or the k-th name of `a, b = x`
                 two = any((c[0] == "cmp" and c[1] == "==" and c[3] == ("const", 2) and pol) or (c[0] == "cmp" and c[1] == "!=" and c[3] == ("const", 2) and not pol) for c, pol in g)
                 ctx.check(pos == (0 if two else 1), "C09.D3", mb.qualname, f"label component under {guard_text(g)[:60]}", expected="RINEX code (position 1) unless the option is 2 (band, position 0)",
                           found=f"position {pos}", **eng.loc(mb, e.node))
@@ -830,6 +878,8 @@ def run(eng, ctx, layout_only=False):
                         gets[key_] = ev
                 if isinstance(st, tuple) and st and st[0] == "idx" and isinstance(st[1], tuple) and st[1][0] == "call" and len(st[1]) == 5 and st[1][2][0] == "attr" and st[1][2][2] == "get" and is_const(st[2]):
                     used_sub.setdefault((k_, st[1]), set()).add(st[2][1])
+                if isinstance(st, tuple) and st and st[0] == "proj" and isinstance(st[1], tuple) and st[1][0] == "call" and len(st[1]) == 5 and st[1][2][0] == "attr" and st[1][2][2] == "get" and isinstance(st[2], int):
+                    used_sub.setdefault((k_, st[1]), set()).add(st[2])  # unpacked: `band, code = table.get(k, D)`
     else:
         for e in se.effects:
             if e.kind == "call" and e.term[2][0] == "attr" and e.term[2][2] == "get" and len(e.term[3]) == 2 and e.loops:  # the label lookups of the scans
@@ -839,6 +889,8 @@ def run(eng, ctx, layout_only=False):
             for st in subterms(t):
                 if isinstance(st, tuple) and st and st[0] == "idx" and st[1][0] == "call" and st[1][1] in gets and is_const(st[2]):
                     used_sub.setdefault(st[1][1], set()).add(st[2][1])
+                if isinstance(st, tuple) and st and st[0] == "proj" and isinstance(st[1], tuple) and st[1] and st[1][0] == "call" and st[1][1] in gets and isinstance(st[2], int):
+                    used_sub.setdefault(st[1][1], set()).add(st[2])
     for uid, e in sorted(gets.items(), key=lambda kv: repr(kv[0])):
         nget += 1
         d = e.term[3][1]
